@@ -109,6 +109,45 @@ def directed_truncation(chk):
     chk.add_phase("directed history: distribution with a truncated tail (sums to 1 - 2e-8)", sum=sum(p0.values()))
 
 
+def directed_failed_recalculation(chk):
+    """read; a reconfiguration whose calculation RAISES (circuit with another number of modes before the input is updated); read again twice:
+    the object must keep refusing (or answer for the current settings), never hand back the previous distribution; then the input is
+    corrected and the answer must be the fresh object's"""
+    import lightworks as lw
+    from lightworks import emulator as emu
+    c3 = lw.Circuit(3); c3.bs(0, 1); c3.ps(1, 0.4); c3.bs(1, 2, reflectivity=0.3); c3.bs(0, 1)
+    c4 = lw.Circuit(4); c4.bs(0, 1); c4.bs(2, 3); c4.ps(2, 0.9); c4.bs(1, 2); c4.bs(0, 1, reflectivity=0.2)
+    for kind in ("sampler", "quick"):
+        mk = (lambda c, s: emu.Sampler(c, s)) if kind == "sampler" else (lambda c, s: emu.QuickSampler(c, s))
+        obj = mk(c3, lw.State([1, 0, 1]))
+        first = dict(obj.probability_distribution)
+        obj.circuit = c4
+        chk.count(key="failed-recalc/" + kind)
+        answers = []
+        for attempt in range(2):
+            try:
+                answers.append(dict(obj.probability_distribution))
+            except Exception:  # noqa: BLE001
+                answers.append(None)
+        try:
+            sampled = obj.sample_N_outputs(20, seed=1) if kind == "sampler" else obj.sample_N_outputs(20, seed=1)
+        except Exception:  # noqa: BLE001
+            sampled = None
+        script = {"directed": "failed recalculation", "object": kind, "history": ["read", "circuit = 4-mode circuit (input still has 3 modes)", "read", "read", "sample_N_outputs"]}
+        if any(a is not None and a == first for a in answers) or (sampled is not None and all(len(s) == 3 for s in dict(sampled))):
+            chk.violation("stale/%s/read_dist" % kind, "after a reconfiguration whose calculation raised, the long-lived %s answers with the distribution of the PREVIOUS "
+                          "configuration (answers: %s)" % (kind, ["raised" if a is None else "previous distribution" if a == first else "other" for a in answers]),
+                          script, sig={"call": "%s.read_dist" % kind, "directed": "failed_recalculation"})
+            continue
+        obj.input_state = lw.State([1, 0, 1, 0])
+        got = dict(obj.probability_distribution)
+        ref = dict(mk(c4, lw.State([1, 0, 1, 0])).probability_distribution)
+        if set(got) != set(ref) or any(abs(got[k] - ref[k]) > 1e-12 for k in ref):
+            chk.violation("stale/%s/read_dist" % kind, "after the input was corrected the long-lived %s differs from a fresh object" % kind, script,
+                          sig={"call": "%s.read_dist" % kind, "directed": "failed_recalculation"})
+    chk.add_phase("directed history: a reconfiguration whose calculation raises, then further reads", objects=2)
+
+
 def run(tier):
     chk = Check(PID, tier)
     chk.rule = ("cases = behaviours of LwCache (reconfigurations: reassign / edit circuit in place / shared Parameter / input / source / backend / "
@@ -134,6 +173,7 @@ def run(tier):
     replay(chk, "quick", "fixedps", True, n, 14, "quick_d")
     replay(chk, "analyzer", "fixed", False, 200 if th else 64, 8, "analyzer")
     directed_truncation(chk)
+    directed_failed_recalculation(chk)
     chk.assumptions = ["TLC 1.8", "the world of the replay: two 3-mode lossy circuits that differ only in their herald photon number, one shared Parameter, "
                        "one PostSelection object; 'same distribution' = same keys and values to 1e-12, same seeded samples"]
     return chk.finish()
